@@ -23,6 +23,7 @@ type dOutcome struct {
 	dur         time.Duration
 	doc         string
 	issuerEmpty bool
+	noES        bool // the document names no end-session and no revocation endpoint
 }
 
 func familyDiscovery(t *testing.T) {
@@ -41,7 +42,7 @@ func familyDiscovery(t *testing.T) {
 				case 1:
 					script = append(script, dOutcome{kind: "5xx"})
 				case 5: // 200 OK with a body that is not a JSON document at all
-					script = append(script, dOutcome{kind: []string{"empty200", "ws200", "truncated", "html", "array"}[rng.Intn(5)]})
+					script = append(script, dOutcome{kind: []string{"empty200", "ws200", "truncated", "html", "array", "typemismatch", "typemismatch"}[rng.Intn(7)]})
 				case 2:
 					script = append(script, dOutcome{kind: "malformed"})
 				case 3:
@@ -53,7 +54,7 @@ func familyDiscovery(t *testing.T) {
 			// recovery, possibly followed by further faults and changed documents that hit the hourly refresh
 			nDoc := 1
 			mkDoc := func() dOutcome {
-				d := dOutcome{kind: "ok", doc: fmt.Sprintf("d%d", nDoc), dur: []time.Duration{0, 0, 2 * time.Second, 20 * time.Second}[rng.Intn(4)]}
+				d := dOutcome{kind: "ok", doc: fmt.Sprintf("d%d", nDoc), dur: []time.Duration{0, 0, 2 * time.Second, 20 * time.Second}[rng.Intn(4)], noES: rng.Intn(2) == 0}
 				nDoc++
 				return d
 			}
@@ -66,18 +67,19 @@ func familyDiscovery(t *testing.T) {
 			}
 			for i := 0; i < rng.Intn(4); i++ {
 				for k := 0; k < rng.Intn(8); k++ {
-					script = append(script, dOutcome{kind: []string{"refused", "5xx", "malformed", "empty200", "ws200", "truncated"}[rng.Intn(6)]})
+					script = append(script, dOutcome{kind: []string{"refused", "5xx", "malformed", "empty200", "ws200", "truncated", "typemismatch"}[rng.Intn(7)]})
 				}
 				script = append(script, mkDoc())
 			}
 			final := fmt.Sprintf("d%d", nDoc)
+			finalNoES := rng.Intn(2) == 0
 			// ---- the provider
 			p := newProvider(keys()["p256a"])
 			p.t0 = time.Now()
 			t0 := time.Now()
 			p.discovery = func(i int) (int, string, time.Duration, bool) {
 				if i >= len(script) {
-					return 200, docJSON(final, false), 0, false
+					return 200, docJSON(final, false, finalNoES), 0, false
 				}
 				o := script[i]
 				switch o.kind {
@@ -97,21 +99,23 @@ func familyDiscovery(t *testing.T) {
 					return 200, "<html><body>maintenance</body></html>", o.dur, false
 				case "array":
 					return 200, "[]", o.dur, false
+				case "typemismatch": // a JSON object naming every endpoint, one known field with the wrong type: the answer must be rejected as a whole
+					return 200, fmt.Sprintf(`{"issuer":"https://idp.test","authorization_endpoint":"https://stale%d.idp.test/auth","token_endpoint":"https://stale%d.idp.test/token","jwks_uri":["https://stale%d.idp.test/jwks"],"end_session_endpoint":"https://stale%d.idp.test/logout","revocation_endpoint":"https://stale%d.idp.test/revoke"}`, i, i, i, i, i), o.dur, false
 				case "slowfail":
 					return 0, "", o.dur, true
 				default:
-					return 200, docJSON(o.doc, o.issuerEmpty), o.dur, false
+					return 200, docJSON(o.doc, o.issuerEmpty, o.noES), o.dur, false
 				}
 			}
 			var outs []M
 			for _, o := range script {
 				if o.kind == "ok" {
-					outs = append(outs, M{"k": "ok", "doc": o.doc, "dur": int64(o.dur), "issuerEmpty": o.issuerEmpty})
+					outs = append(outs, M{"k": "ok", "doc": o.doc, "dur": int64(o.dur), "issuerEmpty": o.issuerEmpty, "noES": o.noES})
 				} else {
 					outs = append(outs, M{"k": "fail", "dur": int64(o.dur), "kind": o.kind})
 				}
 			}
-			hist := []M{{"op": "dcfg", "t0": t0.UnixNano(), "outcomes": outs, "finalDoc": final}}
+			hist := []M{{"op": "dcfg", "t0": t0.UnixNano(), "outcomes": outs, "finalDoc": final, "finalNoES": finalNoES}}
 			T.emit(hist[0])
 			d := &down{}
 			cfg := baseConfig(p)
@@ -233,6 +237,28 @@ func familyDiscovery(t *testing.T) {
 				default:
 					obs["r"] = fmt.Sprintf("other:%d", rec.Code)
 				}
+				if eps := endpointsOf(inst); eps != nil && obs["r"] == "serve" {
+					// every endpoint in use belongs to one document — the one in force; optional endpoints the document does not name are unset
+					label := func(u string) string {
+						if u == "" {
+							return "none"
+						}
+						rest := strings.TrimPrefix(u, "https://")
+						if i := strings.Index(rest, ".idp.test/"); i > 0 {
+							return rest[:i]
+						}
+						return u
+					}
+					obs["es"] = label(eps["end_session"])
+					for _, k := range []string{"auth", "token", "end_session", "revocation"} {
+						if l := label(eps[k]); strings.HasPrefix(l, "stale") {
+							T.oracle("C20", "an endpoint in use was taken from a discovery answer that was rejected", M{"endpoint": k, "value": trunc(eps[k], 100)}, replay())
+						}
+					}
+					if a, tk := label(eps["auth"]), label(eps["token"]); a != tk || (label(eps["end_session"]) != "none" && label(eps["end_session"]) != a) || (label(eps["revocation"]) != "none" && label(eps["revocation"]) != a) {
+						T.oracle("C20", "the endpoints in use come from different discovery documents", M{"auth": a, "token": tk, "end_session": label(eps["end_session"]), "revocation": label(eps["revocation"])}, replay())
+					}
+				}
 				m := M{"op": "dreq", "at": at.UnixNano(), "giveUp": giveUp, "path": path, "obs": obs}
 				hist = append(hist, m)
 				T.emit(m)
@@ -305,9 +331,13 @@ func familyDiscovery(t *testing.T) {
 	})
 }
 
-func docJSON(doc string, issuerEmpty bool) string {
+func docJSON(doc string, issuerEmpty, noES bool) string {
 	base := "https://" + doc + ".idp.test"
-	m := M{"issuer": issuerURL, "authorization_endpoint": base + "/auth", "token_endpoint": base + "/token", "jwks_uri": issuerURL + "/jwks", "end_session_endpoint": base + "/logout"}
+	m := M{"issuer": issuerURL, "authorization_endpoint": base + "/auth", "token_endpoint": base + "/token", "jwks_uri": issuerURL + "/jwks", "end_session_endpoint": base + "/logout", "revocation_endpoint": base + "/revoke"}
+	if noES { // a provider without RP-initiated logout and without revocation
+		delete(m, "end_session_endpoint")
+		delete(m, "revocation_endpoint")
+	}
 	if issuerEmpty {
 		m = M{"authorization_endpoint": base + "/auth"}
 	}
